@@ -149,8 +149,13 @@ func runC14(c *RunCtx) {
 			desc = fmt.Sprintf("zeros(%d)", n)
 		case k == 5 && c.Thorough && t.Chance(1, 60):
 			n := 8_450_000 + t.Intn(100_000)
-			if t.Intn(3) == 0 {
+			switch t.Intn(3) {
+			case 0:
 				n = 16_900_000 + t.Intn(9_000_000) // several accumulator ranges long
+			case 1:
+				// exact multiples of the longest run of 0xFF a signed 32-bit sum can take
+				// (MaxInt32/255 = 8421504), give or take a byte: where a run-wise reduction ends
+				n = (1+t.Intn(3))*8421504 - 1 + t.Intn(4)
 			}
 			d = bytes.Repeat([]byte{0xFF}, n)
 			// a few arbitrary bytes in front: the running sum enters the long 0xFF stretch with
